@@ -10,6 +10,7 @@ from vlib import zlit, zlist, listlit
 PROP = 'C06'
 REQUIRES = ['EndToEnd.Model', 'EndToEnd.Spec']
 KNOWN_KEY = 'queue:untimed-pause-splits-waveform'
+REUSE_KEY = 'extract:keeps-views-of-sent-chunks'
 FS = [25e3, 44.1e3, 48828.125, 97656.25, 195312.5, 1000 / 7.0]
 OFFS = [0.0, 0.3, -0.4, 0.12, -0.27, 0.45, -0.08, 0.499]      # fractions of a sample; never a half-sample tie
 RULE = ('the real queue -> deque -> extract_epochs loop. All seven queue classes; array, FixedWaveform and Cos2-gated-tone '
@@ -24,7 +25,16 @@ RULE = ('the real queue -> deque -> extract_epochs loop. All seven queue classes
         'pause/resume pairs anywhere, random interleaving of generation and acquisition, look-back buffer 0 or 7 samples. '
         'Compared per case: the played stream (exact), the kept trials (key, start sample), and per send the epochs delivered '
         '(exact arrays), against the model; the oracle judges the implementation alone. Non-trivial: a trial was cancelled, or an '
-        'epoch spans two acquisition chunks.')
+        'epoch spans two acquisition chunks. (4) coverage audit: queues filled by extend() (scalar and list options) as well as append(); '
+        'set_t0 / set_fs after construction resp. after the sources; queue start off the sample grid; per-trial delay lists, delays=None; '
+        'epoch_size=None (info["duration"]), prestim_time on/off grid (lagging acquisition, look-back buffer, with pauses), poststim_time '
+        'omitted, off-grid buffer_size, removed_queue omitted, source_complete Event (set / set only before the last send) with '
+        'empty_queue_cb; PipelineData / 2-channel / PipelineData 2-channel / int64 acquisition chunks (s0, metadata, dtype, channel '
+        'equality checked); zero-length chunks; chunk boundaries exactly at trial starts, ends and epoch ends; NumPy-int trial counts and '
+        'request sizes, integer-typed fs; the caller overwriting every array pop_buffer returned; FIFO queue running dry inside a request '
+        'and stimuli appended afterwards; pause exactly at / below the acquisition position, paused silence acquired and resume exactly '
+        'at / after it, a second earlier pause while paused, three pause/resume pairs between two sends; acquisition sample and queue '
+        'clock beyond 2^24 and 2^25.')
 TRUSTED = ['harness/C06.py (the playback device: writes each pop_buffer result at the queue clock, truncates at round(t*fs) on pause; '
            'computes the sample numbers handed to the model with the float expressions of the code: round((t-T0)*fs) for pause/resume, '
            'round(delay*fs), round(duration*fs), round((epoch_size+poststim+prestim)*fs), round(buffer_size*fs)); harness/queuecore.py',
@@ -265,7 +275,7 @@ def impl(case):
             if c > len(P):
                 P = np.concatenate([P, np.zeros(c - len(P))])
             P = np.concatenate([P[:c], wf, P[c + len(wf):]])
-            if case.get('scribble'):
+            if case.get('scribble', len(case['steps']) % 2 == 0):
                 w[...] = -777.0                 # the caller owns what pop_buffer returned
         elif s[0] == 'append':
             new = _fill(case, q, case['stims'][case['late']:], case['late'])
@@ -303,10 +313,10 @@ def impl(case):
             except ValueError as e:
                 sends.append({'raised': 'ValueError', 'message': str(e)[:120]})
                 break
-            if case.get('scribble'):
-                # the driver's chunk is its own again after the send; a driver that hands out views of one ring
-                # buffer is a different contract (see extract_epochs' prior_samples) and is not exercised
-                pass
+            if case.get('reuse'):
+                # a driver that overwrites its buffer after the send (extract_epochs keeps views of the chunks it was
+                # sent: candidate finding REUSE_KEY, not generated by cases())
+                np.asarray(data)[...] = -555
             rows = []
             for blk in got:
                 a = np.asarray(blk)
@@ -491,6 +501,8 @@ def _untimed(case):
 
 
 def key(case, res):
+    if case.get('reuse'):
+        return REUSE_KEY
     return KNOWN_KEY if _untimed(case) else None
 
 
@@ -597,7 +609,11 @@ KNOWN_WITNESSES = {
     KNOWN_KEY: {'pol': 'fifo', 'fs': 1000.0, 'D': 0, 'j': 0, 'seed': 0, 'gs': 1, 'B': 0,
                 'stims': [{'kind': 'array', 'len': 4, 'trials': 1, 'delay': 3}],
                 'esize': [4, 0.0], 'post': [2, 0.0],
-                'steps': [['pop', 2], ['pause', None], ['pop', 2], ['resume', None], ['pop', 10], ['acq', 14]]}}
+                'steps': [['pop', 2], ['pause', None], ['pop', 2], ['resume', None], ['pop', 10], ['acq', 14]]},
+    REUSE_KEY: {'pol': 'fifo', 'fs': 1000.0, 'D': 0, 'j': 0, 'seed': 0, 'gs': 1, 'B': 0, 'reuse': True,
+                'stims': [{'kind': 'array', 'len': 4, 'trials': 1, 'delay': 3}],
+                'esize': [4, 0.0], 'post': [2, 0.0],
+                'steps': [['pop', 14], ['acq', 2], ['acq', 12]]}}
 
 
 # ---------------------------------------------------------------------------------------------------
